@@ -72,7 +72,13 @@ func (pth KeyPath) String() string {
 	for _, key := range pth {
 		switch key.enc {
 		case KeyEncodingURL:
-			res += "/" + url.PathEscape(string(key.name))
+			part := url.PathEscape(string(key.name))
+			// PathEscape leaves ':' alone: a URL-encoded key that starts with
+			// "x:" would be read back by KeyPathToKeys as a hex-encoded key.
+			if strings.HasPrefix(part, "x:") {
+				part = "x%3A" + part[2:]
+			}
+			res += "/" + part
 		case KeyEncodingHex:
 			res += "/x:" + fmt.Sprintf("%X", key.name)
 		default:
